@@ -194,6 +194,17 @@ theorem C16_strict_after_stop_counterexample : ¬ Open.C16_after_stop_called_onl
   revert this
   decide +kernel
 
+/-- The graceful-shutdown clause is FALSE of the code when `stop()` arrives while a rejoin is
+    draining the consumers: stable with two consumers, RebalanceInProgress on the heartbeat, the
+    rejoin reaches `on_join_prepare` (both consumers shutting down), `stop()`, leave reply — the
+    cancelled join hard-stops both consumers (`consumerStop 0`, `consumerStop 1`) mid-shutdown. -/
+theorem C16_graceful_drain_counterexample : ¬ Open.C16_graceful_drain := by
+  intro h
+  have := h exCfg (exStable ++ [.advance 5, .fire 0 none, .hbDone (.err .rebalanceInProgress), .advance 1, .fire 2 none,
+    .coordDone .ok, .metaDone .ok, .stop, .leaveDone .ok])
+  revert this
+  decide +kernel
+
 /-! Non-vacuity of the composition: the first consumer of `exStable`, behaving as a consumer-model run
 that processes offset 42 and auto-commits it, puts exactly one commit on the wire — with generation 5,
 member 1, its own partition. -/
@@ -224,9 +235,11 @@ C16_identity_fixed_at_start
 C16_heartbeat_ids
 C16_join_last
 C16_strict_after_stop_counterexample
+C16_graceful_drain_counterexample
 C16_no_join_after_stop_called
 -/
 /- OPEN_STATEMENTS
 C16_starts_with_join_ids
 C16_after_stop_called_only_leave
+C16_graceful_drain
 -/
